@@ -426,7 +426,11 @@ def run_failed_negotiation(role, idle, how, answer, obs):
         init['segment_mru'] = 0
     else:
         init['nodeid'] = b'dtn://peer/\x00'
-    write(tw.encode(init))
+    if answer == 'together':
+        # the peer's own SESS_TERM follows its SESS_INIT in the same read; afterwards it waits for the endpoint to close
+        write(tw.encode(init) + tw.encode(dict(type='SESS_TERM', flags=0, reason=0)))
+    else:
+        write(tw.encode(init))
     obs['runs'] += 1
     obs['failed_negotiation_runs'] = obs.get('failed_negotiation_runs', 0) + 1
     msgs = [m for (m, _e) in tw.parse_stream(end_sock.tx.all_bytes())[0]]
@@ -436,6 +440,15 @@ def run_failed_negotiation(role, idle, how, answer, obs):
         return ['%s: callback raised %s' % (what, sim.world.callback_errors[0].exc_type)]
     if end_sock.closed:
         return []       # closing at once is a legal way to refuse as well
+    if answer == 'together':
+        what += ', the peer\'s own SESS_TERM in the same read'
+        if len(terms) != 1:
+            return ['%s: expected one SESS_TERM from the endpoint, it wrote %s' % (what, [(m['type'], m.get('reason')) for m in msgs][-3:])]
+        sim.advance(100 * MS)
+        if not end_sock.closed:
+            return ['%s: both SESS_TERM are exchanged and nothing is in progress, but the endpoint did not close' % what]
+        obs['mute_peer_closures'] += 1
+        return []
     if len(terms) != 1 or terms[0]['reason'] != 4:
         return ['%s: expected SESS_TERM(contact failure), endpoint wrote %s' % (what, [(m['type'], m.get('reason')) for m in msgs][-2:])]
     if answer:
